@@ -114,6 +114,43 @@ INFO={
 "C16-7":("message_end hoisted after the hook (variant of C13-3)","fixed buffer failing exactly at the terminator of *STB? etc."),
 "C16-8":("ErrorCode::esr_mask maps every Custom to bit 3","device-defined event numbered in another class pushed through push_error"),
 "C16-9":("*CLS clears context.mav (variant of C16-4)","*CLS;*STB? with MAV set"),
+# ---- fourth wave ("what a seeded random simulator is unlikely to generate or observe")
+"C01-10":("next_optional_token hands out any Ok token after a separator (variant of C01-1/4/9)","',*RST' after a datum with >= 2 typed pulls"),
+"C01-11":("esr_mask rewritten with '-code / 100'","error number -32768 (i16::MIN): negate overflow, debug profile only"),
+"C01-12":("Branch arm 'tokenizer shouldn't emit anything else' replaced by parser_unreachable!()","expression glued to a BRANCH mnemonic without white space (SYST(@1))"),
+"C02-10":("Node::default_branch(..) constructor fills in default: false","trees built with the public const fn constructors instead of struct literals"),
+"C02-11":("mnemonic_compare: '_' in the optional tail no longer optional","node name with '_' in its lower-case tail addressed by its short form"),
+"C02-12":("'?' look-ahead accepts only SPACE, ';' and NL","query mark followed by TAB or CR (MEAS:VOLT?<TAB>10, ...?\\r\\n)"),
+"C04-10":("character-data length check after the loop with a u8 counter","character datum of >= 256 characters: panic (debug) / accepted at 256..268 (release)"),
+"C04-11":("#0 block accepts CR NL (variant of C04-6)","indefinite block payload ending in 0x0D"),
+"C04-12":("from_byte_iter initialises in_data = !in_header","the public Tokenizer::new_params entry point with data starting with ','"),
+"C05-10":("three length loops folded into one helper with 'len as u8'","a token of 256..268 characters: error not raised, later units run"),
+"C05-11":("header() overwrites a latched failure (variant of C05-5/C11-4)","two header() calls, bounded buffer between first and later header length"),
+"C05-12":("Node::exec consults handler.meta() before dispatching","a handler whose meta() hint is NoQuery/QueryOnly but which implements the other form"),
+"C06-10":("run() strips trailing NULs when the last non-NUL byte is NL","block as last element, no terminator, payload ending in 0A 00.."),
+"C06-11":("#0 block accepts CR NL (variant)","indefinite block payload ending in 0x0D"),
+"C06-12":("separator arm calls next_optional_token instead of next_token","message ending right after a ',' and a further OPTIONAL pull: reported absent, message accepted"),
+"C10-10":("ResponseUnit flags become u8 counters","one response unit with >= 256 data: panic (debug) / missing ',' (release)"),
+"C10-11":("formatters skip ';' after a byte that looks like a terminator","unit ending in a block whose last payload byte is NL, followed by another query"),
+"C10-12":("list formatting helper decides on ',' by buffer growth","list response data whose leading item formats to zero bytes"),
+"C11-10":("ArrayVec message_start clears the buffer (Vec does not)","fixed buffer reused without clear while holding an unread response"),
+"C11-11":("suffix length check after the loop with a u8 counter","suffix of >= 256 characters: panic in debug, accepted in release"),
+"C11-12":("Error response data limits description+info to 255 characters with an unchecked subtraction","custom error description of >= 255 bytes with extended text, read through SYST:ERR?"),
+"C12-10":("'already marked' shortcut compares the newest entry by code","full queue whose newest entry is a user error numbered -350 with its own text"),
+"C12-11":("the make-room pop moved into a debug_assert!","any overflow of the bounded queue in a build without debug assertions"),
+"C12-12":("SYST:ERR:COUNt? formats the length through u16","more than 65535 unread items"),
+"C13-10":("Error response data hand-written: quotes in the description no longer doubled","custom error whose description contains a double quote"),
+"C13-11":("*TST? reports a failing self test to the error hook (variant of C13-5)","device self test fails"),
+"C13-12":("message_start()? moved in front of the hook block","a formatter that fails in message_start"),
+"C14-10":("non-finite float intermediate mapped to InvalidExponent => -120","integer parameter 1E39 / 1E309"),
+"C14-11":("negative channel dimension in tuple conversions reported as -171","(@-1!2) converted to (usize,usize)"),
+"C14-12":("NumericBuilder::finish: UP/DOWN reported as -148","numeric_value UP/DOWN resolved with finish()"),
+"C15-10":("public alias StatQuesNTransitionCommand = PTransitionCommand<Questionable>","a STATus tree built by hand from the documented aliases"),
+"C15-11":("set_condition_bits early return (variant of C15-4/7)","multi-bit mask partly overlapping the condition"),
+"C15-12":("scpi_register!: name typo PTRansiton","the long form PTRansition"),
+"C16-10":("ENABle stores value & 0x7FFF and get_summary drops its own mask","raw enable field / bit 15 (caught through the stored register value)"),
+"C16-11":("run_tokens sets context.mav = true after writing a response","the same Context reused on an interface that never reports MAV"),
+"C16-12":("plain IEEE4882::stb(): MSS from 'esb & sre'","a device that keeps the trait's default stb(), event bits other than 5"),
 }
 results={}
 for f in glob.glob(f"{HERE}/seeded/results.*.tsv"):
